@@ -2,7 +2,7 @@
    any operation sequence.  Statements only; every proof is `exact <lemma>`. *)
 From Coq Require Import ZArith List Bool Lia.
 From Sky Require Import Result PyList G_table M_Table S_Table S_TableInterp P_TableBase P_TableOps P_TableOps2 P_TableOps3
-  P_TableCtor P_Table P_TableRefine P_TableThm P_TableClosed P_TableFull P_TableRows P_TableFindings.
+  P_TableCtor P_Table P_TableRefine P_TableThm P_TableClosed P_TableFull P_TableRows P_TableFindings M_TableRec P_TableRec.
 Import ListNotations.
 Open Scope Z_scope.
 
@@ -339,3 +339,39 @@ Theorem C16_set_selection_op_rows : forall s E o Ea a sl s' o' ps,
            end.
 Proof. exact set_selection_op_rows. Qed.
 Print Assumptions C16_set_selection_op_rows.
+
+(* ================================================================================
+   EXTENSION: as_numpy_record_array (M_TableRec.v) — the accessor that turns the column store
+   back into a record array.  Its rows are exactly the rows of the plain table. *)
+Theorem C16_record_array_rows : forall s E o, repr s E o -> eqlen E o ->
+  as_record s o = Ok (map (fun n => (n, bdt (E n))) (keys (fields o)),
+                      trows (abs E (keys (fields o)) (Z.to_nat (olen o)))).
+Proof. exact as_record_rows. Qed.
+Print Assumptions C16_record_array_rows.
+
+(* for EVERY operation sequence, the record array of every live table exists (no exception) and is
+   the record array of the corresponding table of the plain-table interpreter *)
+Theorem C16_record_array_refines : forall ops, Forall op_wf ops ->
+  let w := run empty_world ops in
+  forall i o, nth_error (wobjs w) i = Some o ->
+    exists t, nth_error (s_run [] ops) i = Some t /\ as_record (wstore w) o = Ok (rec_of t).
+Proof. exact record_array_all_sequences. Qed.
+Print Assumptions C16_record_array_refines.
+
+(* a field name list that names a missing field makes the accessor raise KeyError (what the
+   invariant `field_name_list = keys` protects against) *)
+Theorem C16_record_array_missing_field : forall s o n, In n (fnl o) -> assoc n (fields o) = None ->
+  (forall k, In k (fnl o) -> k <> n -> exists l b, assoc k (fields o) = Some l /\ rd s l = Some b) ->
+  as_record s o = Err KeyError.
+Proof. exact as_record_missing_field. Qed.
+Print Assumptions C16_record_array_missing_field.
+
+Example C16_record_array_example :
+  rec_world (run empty_world (firstn 6 ex_ops)) =
+    [ Ok ([(0, 0); (1, 3)], [[3; 30]; [1; 10]; [3; 30]; [1; 10]; [2; 20]; [3; 30]]);
+      Ok ([(0, 0); (1, 3)], [[3; 30]; [1; 10]]) ]
+  /\ as_record [mkbuf 2 [1; 2; 3]; mkbuf 3 [7]] (mkobj [(0, 0%nat); (1, 1%nat)] [0; 1] 3 None)
+     = Ok ([(0, 2); (1, 3)], [[1; 7]; [2; 7]; [3; 7]])
+  /\ as_record [mkbuf 2 [1; 2; 3]; mkbuf 3 [7; 8]] (mkobj [(0, 0%nat); (1, 1%nat)] [0; 1] 3 None) = Err ValueError
+  /\ as_record [mkbuf 2 [1; 2; 3]] (mkobj [(0, 0%nat)] [0; 5] 3 None) = Err KeyError.
+Proof. repeat split; vm_compute; reflexivity. Qed.
